@@ -55,6 +55,9 @@ def to_spec(it):
 
 
 def evaluate(item):
+    if isinstance(item, dict) and item.get("kind") == "wide":
+        from mc.props import wide
+        return wide.eval_c06(item)
     spec = to_spec(item)
     obs = common.run_spec(spec)
     if obs.get("error"):
@@ -94,12 +97,14 @@ def universe(tier):
 def run(ctx):
     st = Stats()
     explore(ctx, universe(ctx.tier), "mc.props.c06:evaluate", st, payload=payload, sample_of=sample)
+    from mc.props import wide
+    wide.sweep(ctx, st, "C06")
     common.vacuity_guard(ctx, st)
     cov = st.coverage(
         "complete product universes: C03's (every effort minute x efficiency x resolution x direction x contention, teams, alternatives, "
         "C01 projects) + all 3-chains of sub-slot tasks + milestones behind mid-slot predecessors with gaps / on-start. states = distinct "
         "schedule observations; transitions = placements + bookings; non-trivial = a task starts or ends inside a slot, or a milestone bound was checked")
-    return ctx.finish(cov, ASSUME)
+    return ctx.finish(cov, ASSUME + [wide.NOTE])
 
 
 def replay(path):
